@@ -868,4 +868,88 @@ func TestRelay(t *testing.T) {
 	propRelay.Check(t, kit.N(1200, 1500))
 }
 
-func TestReplay(t *testing.T) { kit.Replay(t, propRelay) }
+// ---------------------------------------------------------------- a busy connection outlives the idle timeout
+
+// BusyCase: one connection used steadily for longer than the proxy's timeout.
+type BusyCase struct {
+	TimeoutMs int  `json:"timeout_ms"`
+	GapMs     int  `json:"gap_ms"`
+	N         int  `json:"n"`
+	Bodies    bool `json:"bodies"`
+}
+
+func runBusy(c BusyCase) kit.Verdict {
+	v := runBusyOnce(c, 1)
+	if len(v) > 0 && !kit.Shrinking() {
+		// timing-dependent by nature: re-validate once with everything twice as slow
+		if v2 := runBusyOnce(c, 2); len(v2) == 0 {
+			kit.Inconclusive("busy-connection")
+			return nil
+		}
+	}
+	return v
+}
+
+func runBusyOnce(c BusyCase, scale int) (v kit.Verdict) {
+	origin := netkit.NewOrigin(func(r *netkit.ReqLog) netkit.Script {
+		body := "BODY-" + r.Header.Get("X-Verif-Id")
+		return netkit.Script{Raw: []byte(fmt.Sprintf("HTTP/1.1 200 OK\r\nContent-Length: %d\r\n\r\n%s", len(body), body)), CutAt: -1}
+	})
+	defer origin.Close()
+	dialer := &netkit.Dialer{Route: func(string) string { return origin.Addr }}
+	p := martian.NewProxy()
+	p.SetTimeout(time.Duration(c.TimeoutMs*scale) * time.Millisecond)
+	p.SetDial(dialer.Dial)
+	pr := netkit.Start(p, nil)
+	defer pr.Stop(10 * time.Second)
+	cl, err := netkit.Dial(pr.Addr)
+	if err != nil {
+		return kit.Failf("C01/harness/dial", "%v", err)
+	}
+	defer cl.Close()
+	start := time.Now()
+	for i := 0; i < c.N; i++ {
+		id := fmt.Sprintf("busy-%d", i)
+		req := fmt.Sprintf("GET http://origin.test/%s HTTP/1.1\r\nHost: origin.test\r\nX-Verif-Id: %s\r\n\r\n", id, id)
+		if c.Bodies {
+			req = fmt.Sprintf("POST http://origin.test/%s HTTP/1.1\r\nHost: origin.test\r\nX-Verif-Id: %s\r\nContent-Length: 5\r\n\r\nhello", id, id)
+		}
+		if err := cl.Write([]byte(req)); err != nil {
+			return kit.Failf("C01/keepalive/busy-connection-older-than-timeout/dropped", "request %d, %v after the connection was opened (proxy timeout %d ms, a request every %d ms): write failed: %v", i, time.Since(start).Round(time.Millisecond), c.TimeoutMs*scale, c.GapMs*scale, err)
+		}
+		method := "GET"
+		if c.Bodies {
+			method = "POST"
+		}
+		res, _, err := cl.ReadResponse(method, kit.T())
+		if err != nil || res.Status != 200 || string(res.Body) != "BODY-"+id {
+			return kit.Failf("C01/keepalive/busy-connection-older-than-timeout/dropped", "request %d, %v after the connection was opened (proxy timeout %d ms, a request every %d ms, neither side asked to close): %v %+v", i, time.Since(start).Round(time.Millisecond), c.TimeoutMs*scale, c.GapMs*scale, err, res)
+		}
+		if res.Close {
+			return kit.Failf("C01/keepalive/busy-connection-older-than-timeout/close-announced", "response %d carries Connection: close although neither side asked to close", i)
+		}
+		time.Sleep(time.Duration(c.GapMs*scale) * time.Millisecond)
+	}
+	return nil
+}
+
+var propBusy = &kit.Prop[BusyCase]{
+	ID: "C01", Name: "busy-connection", Journal: true,
+	Rule: "one keep-alive connection carrying a request every g ms for longer than the proxy's timeout (set with SetTimeout, g well below it): every request is answered and the connection is never closed; non-trivial = total duration exceeds the timeout (always)",
+	Gen: func(t *rapid.T) BusyCase {
+		c := BusyCase{TimeoutMs: rapid.IntRange(1200, 1800).Draw(t, "timeout_ms"), GapMs: rapid.IntRange(300, 450).Draw(t, "gap_ms"), Bodies: rapid.Bool().Draw(t, "bodies")}
+		c.N = c.TimeoutMs/c.GapMs + 2
+		return c
+	},
+	Run: runBusy,
+}
+
+func TestBusyConnection(t *testing.T) {
+	if kit.Shards() > 1 && kit.Shard()%4 != 0 {
+		t.Skip("run by every fourth shard only")
+	}
+	kit.Assume("the proxy's timeout is an idle/exchange timeout: a connection in steady use (gaps of a quarter of the timeout) is not subject to it")
+	propBusy.Check(t, kit.N(2, 3))
+}
+
+func TestReplay(t *testing.T) { kit.Replay(t, propRelay, propBusy) }
